@@ -1126,28 +1126,18 @@ def _simplify_function_min(call: HplFunctionCall) -> HplExpression:
 
 def _obviously_different(a: HplExpression, b: HplExpression) -> bool:
     # assume arguments have been simplified
-    if _obvious_negatives(a, b):
+    # p and (not p) always differ; x and (-x) do not (both are 0 when x is 0)
+    if isinstance(a, HplUnaryOperator) and a.operator.is_not and a.operand == b:
+        return True
+    if isinstance(b, HplUnaryOperator) and b.operator.is_not and b.operand == a:
         return True
     if isinstance(a, HplBinaryOperator):
         op: BinaryOperatorDefinition = a.operator
+        # x and (x + c), (x - c) differ for a non-zero constant c;
+        # x and (x * c), (x / c), (x ** c) do not (x = 0 or x = 1)
         if op.is_plus or op.is_minus:
             if a.operand1 == b and isinstance(a.operand2, HplLiteral):
                 assert a.operand2.value != 0  # due to simplification
-                return True
-        if op.is_times:
-            if a.operand1 == b and isinstance(a.operand2, HplLiteral):
-                assert a.operand2.value != 0  # due to simplification
-                assert a.operand2.value != 1  # due to simplification
-                return True
-        if op.is_division:
-            if a.operand1 == b and isinstance(a.operand2, HplLiteral):
-                assert a.operand2.value != 0  # due to simplification
-                assert a.operand2.value != 1  # due to simplification
-                return True
-        if op.is_power:
-            if a.operand1 == b and isinstance(a.operand2, HplLiteral):
-                assert a.operand2.value != 0  # due to simplification
-                assert a.operand2.value != 1  # due to simplification
                 return True
     return False
 
